@@ -431,7 +431,7 @@ def get_sqrtprec_from_cov(dim, cov, sparse_flag):
                 prec = sqrtprec.T @ sqrtprec
             else:
                 rank = nplinalg.matrix_rank(cov)
-                logdet = np.log(nplinalg.det(cov))
+                logdet = nplinalg.slogdet(cov)[1]
                 prec = nplinalg.inv(cov)
                 sqrtprec = nplinalg.cholesky(prec).T
     return prec, sqrtprec, logdet, rank
@@ -520,7 +520,7 @@ def get_sqrtprec_from_prec(dim, prec, sparse_flag):
                 logdet = -np.sum(np.log(d))
             else:
                 rank = nplinalg.matrix_rank(prec)
-                logdet = -np.log(nplinalg.det(prec))
+                logdet = -nplinalg.slogdet(prec)[1]
                 # cov = nplinalg.inv(prec) # For computational efficiency we do not compute cov. We leave code for reference.
                 sqrtprec = nplinalg.cholesky(prec).T
     return sqrtprec, logdet, rank
@@ -617,7 +617,7 @@ def get_sqrtprec_from_sqrtcov(dim, sqrtcov, sparse_flag):
             else:
                 cov = sqrtcov@sqrtcov.T
                 rank = nplinalg.matrix_rank(cov)
-                logdet = np.log(nplinalg.det(cov))
+                logdet = nplinalg.slogdet(cov)[1]
                 prec = nplinalg.inv(cov)
                 sqrtprec = nplinalg.cholesky(prec).T
     return prec, sqrtprec, logdet, rank
@@ -707,7 +707,7 @@ def get_sqrtprec_from_sqrtprec(dim, sqrtprec, sparse_flag):
             else:
                 prec = sqrtprec@sqrtprec.T
                 rank = nplinalg.matrix_rank(prec)
-                logdet = -np.log(nplinalg.det(prec))
+                logdet = -nplinalg.slogdet(prec)[1]
     return sqrtprec, logdet, rank
 
 def eigvalsh_to_eps(spectrum, cond=None, rcond=None):
